@@ -16,7 +16,9 @@ theorem get_spec {cfg : Cfg} (hc : CfgOk cfg) (t : Tree) (hinv : TreeInv cfg t) 
 /-- `initRootNode`: the tree holds only the sentinel `absoluteMax ↦ 0`. -/
 theorem initRoot_spec {cfg : Cfg} (hc : CfgOk cfg) (a : Alloc) (ha : a.fault = none) :
     TreeInv cfg (initRoot cfg a) ∧ toList (initRoot cfg a).root = [(absoluteMax, 0#64)] ∧
-      Cons a (initRoot cfg a).a [] (pids (initRoot cfg a).root) := by
+      Cons a (initRoot cfg a).a [] (pids (initRoot cfg a).root) ∧
+      (initRoot cfg a).a.leafKeys = a.leafKeys + 1 ∧ countLeafKeys (initRoot cfg a).root = 1 ∧
+      (initRoot cfg a).root.pid = (newNode cfg a).1 := by
   have hmk := hc.lt
   have hge := hc.ge4
   have hkp : setKeyPanic absoluteMax = false := by decide
@@ -43,15 +45,18 @@ theorem initRoot_spec {cfg : Cfg} (hc : CfgOk cfg) (a : Alloc) (ha : a.fault = n
   simp only [search, hidx, Bool.false_eq_true, if_false]
   rw [setEnts]
   simp only [hslot, if_true, hleaf, afterChild, hnf, Bool.false_eq_true, if_false, hnf2]
-  refine ⟨⟨rfl, ⟨⟨⟨⟨by decide, trivial⟩, ⟨by simp, rfl⟩, by simp; omega⟩, trivial⟩, ⟨by simp, rfl⟩, by simp; omega⟩, ?_⟩, ?_, ?_⟩
+  refine ⟨⟨rfl, ⟨⟨⟨⟨by decide, trivial⟩, ⟨by simp, rfl⟩, by simp; omega⟩, trivial⟩, ⟨by simp, rfl⟩, by simp; omega⟩, ?_⟩, ?_, ?_, ?_, ?_, rfl⟩
   · simp only [newNode_fault]; exact ha
   · simp [toList, toListEnts]
-  · have h0 : Cons a a [] [] := Cons.same rfl rfl _
+  · have h0 : Cons a a [] [] := Cons.same rfl rfl rfl _
     have h2 := (h0.alloc cfg).alloc cfg
-    refine ⟨h2.1, fun x => ?_⟩
+    refine ⟨h2.1, fun x => ?_, h2.3⟩
     have := h2.2 x
     simp only [pids, pidsEnts, List.count_append, List.count_cons, List.count_nil] at this ⊢
     omega
+  · simp only [newNode_leafKeys]; rfl
+  · simp only [countLeafKeys, countLeafKeysEnts]
+    rw [Node.numKeys_eq _ (by simp [Node.len])]; simp [Node.len]
 
 theorem bufAllocate_fault' (a : Alloc) (n : Nat) (h : a.fault = none) : (bufAllocate a n).fault = none := h
 
